@@ -116,8 +116,13 @@ fn main() {
 				}
 			}
 			if !cfgs.is_empty() {
-				let sys = IndSys::new(&format!("{name}/deviation/float-parameters"), cfgs, vec![ks[1]], vec![ks[1], ks[2], ks[3]], oracle, true);
-				h.go(&sys, &Limits::deviation(if thorough { 2 } else { 1 }, if thorough { 400 } else { 300 }).wall_secs(600), true);
+				let sys = IndSys::new(&format!("{name}/deviation/float-parameters"), cfgs.iter().map(|c| c.boxed_clone()).collect(), vec![ks[1]], vec![ks[1], ks[2], ks[3]], oracle, true);
+				h.go(&sys, &Limits::deviation(1, if thorough { 400 } else { 300 }).wall_secs(600), true);
+				if thorough {
+					let sys = IndSys::new(&format!("{name}/deviation-2/float-parameters"), cfgs, vec![ks[1]], vec![ks[1], ks[2], ks[3]], oracle, true);
+					h.go(&sys, &Limits::deviation(2, 100).wall_secs(600), true);
+					tally!(sys);
+				}
 				tally!(sys);
 			}
 		}
